@@ -26,7 +26,7 @@ import itertools
 from checks import c17_rfc
 from harness import core, rng, runner, tree
 
-PROP_MODULES = ["AQ.Props.C17", "AQ.Props.C17tls"]
+PROP_MODULES = ["AQ.Props.C17", "AQ.Props.C17tls", "AQ.Props.C17frames"]
 P62 = 1 << 62
 P64 = 1 << 64
 V1 = 1
@@ -752,6 +752,27 @@ def oracle_tp_decode(impl):
     return f
 
 
+def _replay_codec(path):
+    """replay of Buffer / packet.py / frame / retry-token witnesses"""
+    tree.activate()
+    from harness.impl_codec import CodecImpl
+    impl = CodecImpl()
+    oracles = {
+        "int-roundtrip": oracle_int, "size": oracle_size, "int-decode-prefixes": oracle_varint_decode,
+        "ack-roundtrip": oracle_ack, "ack-capacity": oracle_ack, "ack-decode": oracle_ack_decode(impl, {}),
+        "header-roundtrip": oracle_header, "header-decode": oracle_header_fuzz, "tp-subsets": oracle_tp,
+        "tp-declared-length": oracle_tp_decode(impl), "tp-decode": oracle_tp_decode(impl),
+    }
+    import json
+    from checks import c17_frames
+    name = (json.load(open(path)).get("signature") or {}).get("oracle", "")
+    if name in c17_frames.ORACLES or name.startswith("frames-") or name == "retry-token":
+        from harness.impl_frames import FrameImpl
+        fimpl = FrameImpl()
+        return runner.replay_ops(path, lambda: fimpl, c17_frames.ORACLES)
+    return runner.replay_ops(path, lambda: impl, oracles)
+
+
 # ----------------------------------------------------------------- the check
 def main(tier):
     ctx = core.Ctx("C17", tier)
@@ -853,6 +874,9 @@ def main(tier):
     # TLS handshake message codecs (tls.py): round trips, declared-length confinement, acceptance model
     from checks import c17_tls
     c17_tls.run(ctx, tier)
+    # every QUIC frame + Retry token plaintext: model vs real writers (sim payloads) vs harness/frames.py
+    from checks import c17_frames
+    c17_frames.run(ctx, tier)
     return ctx.finish()
 
 
@@ -872,14 +896,4 @@ def replay(path):
         if not problems:
             print("no longer failing")
         return 1 if problems else 0
-    rep = d.get("replay", {})
-    if "ops" in rep:
-        tree.activate()
-        from harness.impl_codec import CodecImpl
-        impl = CodecImpl()
-        out = [impl.step(l) for l in rep["ops"]]
-        same = out == rep.get("impl_output")
-        print("implementation output " + ("unchanged (still failing)" if same else "changed: " + json.dumps(out)[:400]))
-        return 1 if same else 0
-    print("nothing re-executable in", path)
-    return 2
+    return _replay_codec(path)
